@@ -243,6 +243,14 @@ def run(tier, seed):
         reads = [(0, j, p) for j, p in enumerate(seq)]
         rec.case("scale", ("cache", tuple(seq)))
         check_cache(rec, "scale", reads, 1, 16)
+        # filter at scale: positions with one and two digits, several outer iterations
+        a = []
+        for m in range(rnd.randint(1, 5)):
+            for j, pos in enumerate(sorted(rnd.sample(range(24), rnd.randint(0, 14)))):
+                a.append((m, j, pos))
+        f = [r for r in a if rnd.random() < 0.5 for _q in range(rnd.randint(1, 2))]
+        rec.case("scale", ("filter", repr(a), repr(f)))
+        check_filter_combine(rec, "scale", a, f)
     return rec.result("seeded well-formed read (and read+write) traces over loop ranks (M, K) with <= %d rows over <= 4 positions; bindings evict-on root and "
                       "evict-on M; lines of 1 and 2 elements; buffet against a count of distinct (line, window) pairs by first-access kind and by contained "
                       "writes (staging-area writes excluded); cache against an exhaustive search over all replacement/bypass decisions at every capacity "
